@@ -76,6 +76,10 @@ impl AsyncOverlayFS {
         if let Some(index) = separator {
             let parent_path = &path[..index];
             if self.exists(parent_path).await? {
+                if self.metadata(parent_path).await?.file_type != VfsFileType::Directory {
+                    // never materialise a directory chain over a (lower-layer) file
+                    return Err(VfsErrorKind::Other("Parent path is not a directory".into()).into());
+                }
                 self.write_path(parent_path)?.create_dir_all().await?;
                 return Ok(());
             }
